@@ -532,6 +532,25 @@ func (c *Ctx) expirableWrapper(r *lruRoles) {
 				return false
 			}, Target: ir.IsExit}, "a stale item is removed but not created again")
 	}
+	// what the re-creation returns is what the caller gets: value and error of the second GetOrCreate
+	for _, ret := range ir.Returns(fn) {
+		for _, g := range gocs[1:] {
+			if !ir.Dominates(g, ret) {
+				continue
+			}
+			okV, okE := false, false
+			if ir.Resolve(ir.ResultValue(ret, 0)) == ssa.Value(g) {
+				okV, okE = true, true // return g(...) directly
+			}
+			if ex, isEx := ir.Resolve(ir.ResultValue(ret, 0)).(*ssa.Extract); isEx && ex.Tuple == ssa.Value(g) && ex.Index == 0 {
+				okV = true
+			}
+			if ex, isEx := ir.Resolve(ir.ResultValue(ret, 1)).(*ssa.Extract); isEx && ex.Tuple == ssa.Value(g) && ex.Index == 1 {
+				okE = true
+			}
+			c.Decide("C08.R5", fn, "result of the re-creation is returned as it is", ret, okV && okE, "the value or the error of the re-creation of an expired item is not returned to the caller: a failed re-creation is reported as success with a zero value")
+		}
+	}
 	// the fresh edge returns the cached value unchanged
 	first := gocs[0]
 	for _, ret := range ir.Returns(fn) {
@@ -543,7 +562,7 @@ func (c *Ctx) expirableWrapper(r *lruRoles) {
 			c.Decide("C08.R5", fn, "fresh item returned unchanged", ret, ok, "a fresh (not expired) item is not returned as it was found")
 		}
 	}
-	c.R.Floor("C08.R5", 3)
+	c.R.Floor("C08.R5", 2)
 }
 
 func runC09(c *Ctx) {
